@@ -2,6 +2,7 @@ package main
 
 import (
 	"fmt"
+	"strconv"
 	"strings"
 	"sync"
 	"time"
@@ -11,7 +12,7 @@ import (
 
 // C19 wire (mirror of coq/theories/C19_Wire.v)
 //
-//	input  = kind :: init :: concat [code a b]          kind 0 = SList, 1 = DList
+//	input  = kind :: init :: concat [code a b]          kind 0 = SList, 1 = DList (+4: at string, +8: at a struct, see c19New)
 //	codes: 1 Unshift a   2 Append a   3 InsertAfter(Find a, b)   4 InsertBefore(Find a, b)
 //	       5 Replace(a, b)   6 Delete(Find a)   7 Shift   8 Pop   9 Find a
 //	       10 First   11 Last   12 Clear
@@ -70,23 +71,26 @@ func errRes(err error) []int64 {
 	return []int64{0}
 }
 
-func c19NewS(v int) *c19List {
-	l := list.Init(v)
+// The lists are generic in a comparable element type and use == on values in Find / Replace /
+// Delete.  Every operation of the harness goes through a codec int -> T (enc) and back (dec), so the
+// wire and the model are the same for every instantiation; enc builds a NEW value for every use.
+func c19NewSG[T comparable](v int, enc func(int) T, dec func(T) int) *c19List {
+	l := list.Init(enc(v))
 	return &c19List{
-		each: l.Each,
+		each: func(fn func(int)) { l.Each(func(x T) { fn(dec(x)) }) },
 		call: func(code, a, b int) []int64 {
 			switch code {
 			case c19Unshift:
-				l.Unshift(a)
+				l.Unshift(enc(a))
 			case c19Append:
-				l.Append(a)
+				l.Append(enc(a))
 			case c19InsertAfter:
-				n, _ := l.Find(a)
-				return errRes(l.InsertAfter(n, b))
+				n, _ := l.Find(enc(a))
+				return errRes(l.InsertAfter(n, enc(b)))
 			case c19Replace:
-				return errRes(l.Replace(a, b))
+				return errRes(l.Replace(enc(a), enc(b)))
 			case c19Delete:
-				n, ok := l.Find(a)
+				n, ok := l.Find(enc(a))
 				if !ok {
 					return []int64{1, 2}
 				}
@@ -96,8 +100,8 @@ func c19NewS(v int) *c19List {
 			case c19Pop:
 				l.Pop()
 			case c19Find:
-				n, ok := l.Find(a)
-				if ok && (n == nil || n.Value != a) {
+				n, ok := l.Find(enc(a))
+				if ok && (n == nil || dec(n.Value) != a) {
 					return []int64{0, 7} // found a node that does not carry the value
 				}
 				return []int64{0, b2i(ok)}
@@ -109,29 +113,29 @@ func c19NewS(v int) *c19List {
 	}
 }
 
-func c19NewD(v int) *c19List {
-	l := list.InitDList(v)
+func c19NewDG[T comparable](v int, enc func(int) T, dec func(T) int) *c19List {
+	l := list.InitDList(enc(v))
 	return &c19List{
 		dlist: true,
-		each:  l.Each,
-		first: l.First,
-		last:  l.Last,
+		each:  func(fn func(int)) { l.Each(func(x T) { fn(dec(x)) }) },
+		first: func() int { return dec(l.First()) },
+		last:  func() int { return dec(l.Last()) },
 		call: func(code, a, b int) []int64 {
 			switch code {
 			case c19Unshift:
-				l.Unshift(a)
+				l.Unshift(enc(a))
 			case c19Append:
-				l.Append(a)
+				l.Append(enc(a))
 			case c19InsertAfter:
-				n, _ := l.Find(a)
-				return errRes(l.InsertAfter(n, b))
+				n, _ := l.Find(enc(a))
+				return errRes(l.InsertAfter(n, enc(b)))
 			case c19InsertBefore:
-				n, _ := l.Find(a)
-				return errRes(l.InsertBefore(n, b))
+				n, _ := l.Find(enc(a))
+				return errRes(l.InsertBefore(n, enc(b)))
 			case c19Replace:
-				return errRes(l.Replace(a, b))
+				return errRes(l.Replace(enc(a), enc(b)))
 			case c19Delete:
-				n, ok := l.Find(a)
+				n, ok := l.Find(enc(a))
 				if !ok {
 					return []int64{1, 2}
 				}
@@ -141,15 +145,15 @@ func c19NewD(v int) *c19List {
 			case c19Pop:
 				l.Pop()
 			case c19Find:
-				n, ok := l.Find(a)
-				if ok && (n == nil || n.Value != a) {
+				n, ok := l.Find(enc(a))
+				if ok && (n == nil || dec(n.Value) != a) {
 					return []int64{0, 7}
 				}
 				return []int64{0, b2i(ok)}
 			case c19First:
-				return []int64{0, int64(l.First())}
+				return []int64{0, int64(dec(l.First()))}
 			case c19Last:
-				return []int64{0, int64(l.Last())}
+				return []int64{0, int64(dec(l.Last()))}
 			case c19Clear:
 				l.Clear()
 			default:
@@ -158,6 +162,106 @@ func c19NewD(v int) *c19List {
 			return []int64{0}
 		},
 	}
+}
+
+// ---------- the instantiations: wire kind = base + 4*instance ----------
+//
+//	instance 0: T = int, the identity codec
+//	instance 1: T = string.    0 <-> ""  (the zero value: DList.Shift zeroes the only value), v <-> "#<decimal v>"
+//	instance 2: T = c19Rec.    0 <-> c19Rec{},  v <-> {Name: "#<decimal v/2>", N: v%2}  (both fields needed)
+//
+// The strings are assembled in a fresh byte slice at EVERY use (at least two bytes long: the runtime
+// shares the storage of one-byte strings, strconv.Itoa that of small numbers), so two equal values
+// never share their backing array: an implementation that compares representations instead of
+// values (right for ints) is wrong here.  A value that decodes to nothing is reported as c19Garbage.
+const c19Garbage = -888888
+
+type c19Rec struct {
+	Name string
+	N    int
+}
+
+func c19Str(v int) string {
+	b := make([]byte, 0, 12)
+	b = append(b, '#')
+	b = strconv.AppendInt(b, int64(v), 10)
+	return string(b)
+}
+
+func c19UnStr(s string) (int, bool) {
+	if len(s) < 2 || s[0] != '#' {
+		return 0, false
+	}
+	v, err := strconv.Atoi(s[1:])
+	return v, err == nil
+}
+
+func c19EncInt(v int) int { return v }
+func c19DecInt(v int) int { return v }
+
+func c19EncString(v int) string {
+	if v == 0 {
+		return ""
+	}
+	return c19Str(v)
+}
+
+func c19DecString(s string) int {
+	if s == "" {
+		return 0
+	}
+	if v, ok := c19UnStr(s); ok && v != 0 {
+		return v
+	}
+	return c19Garbage
+}
+
+func c19EncRec(v int) c19Rec {
+	if v == 0 {
+		return c19Rec{}
+	}
+	return c19Rec{Name: c19Str(v / 2), N: v % 2}
+}
+
+func c19DecRec(r c19Rec) int {
+	if r == (c19Rec{}) {
+		return 0
+	}
+	q, ok := c19UnStr(r.Name)
+	if !ok || r.N < -1 || r.N > 1 {
+		return c19Garbage
+	}
+	v := 2*q + r.N
+	if v == 0 || v/2 != q || v%2 != r.N {
+		return c19Garbage
+	}
+	return v
+}
+
+var c19InstNames = []string{"int", "string", "struct{Name string; N int}"}
+
+// c19New builds the list for a wire kind: base = kind%4 (0 SList, 1 DList, 2/3 the same with
+// checkpointed records), instance = kind/4.
+func c19New(kind, v int) *c19List {
+	dl := kind%2 == 1
+	switch kind / 4 {
+	case 0:
+		if dl {
+			return c19NewDG(v, c19EncInt, c19DecInt)
+		}
+		return c19NewSG(v, c19EncInt, c19DecInt)
+	case 1:
+		if dl {
+			return c19NewDG(v, c19EncString, c19DecString)
+		}
+		return c19NewSG(v, c19EncString, c19DecString)
+	case 2:
+		if dl {
+			return c19NewDG(v, c19EncRec, c19DecRec)
+		}
+		return c19NewSG(v, c19EncRec, c19DecRec)
+	}
+	return nil
 }
 
 // c19Guard runs f; reports a panic, or a hang when f gave up through c19Hang.
@@ -189,17 +293,12 @@ func c19Run(in []int64, out *[]int64, mu *sync.Mutex, abandoned *bool) {
 	}
 	r := &R{w: in}
 	kind, init := r.Int(), r.Int()
-	var l *c19List
-	switch kind {
-	case 0, 2:
-		l = c19NewS(init)
-	case 1, 3:
-		l = c19NewD(init)
-	default:
+	if kind < 0 || kind > 11 {
 		emit(-999999)
 		return
 	}
-	quiet := kind >= 2 // checkpointed: the list is looked at only by Look records
+	l := c19New(kind, init)
+	quiet := kind%4 >= 2 // checkpointed: the list is looked at only by Look records
 	maxCode := c19Clear
 	if quiet {
 		maxCode = c19Look
@@ -498,6 +597,80 @@ func c19Count(g *Gen, kind int, ops []c19Op, nt bool, minLen, maxLen int) {
 	}
 }
 
+// c19RandomHistory: fresh distinct inserted values, handles mostly on present values, head edits forced
+func c19RandomHistory(g *Gen, kind, steps int) []c19Op {
+	target := 1 + g.Rng.Intn(12) // the length the history hovers around
+	s := &c19Ref{xs: []int{1}, dlist: kind == 1}
+	fresh := 2
+	var ops []c19Op
+	for i := 0; i < steps; i++ {
+		ref := func() int {
+			if g.Rng.Intn(10) == 0 {
+				return c19Absent + g.Rng.Intn(3)*1000
+			}
+			return s.xs[g.Rng.Intn(len(s.xs))]
+		}
+		grow := len(s.xs) < target || g.Rng.Intn(4) == 0
+		var o c19Op
+		switch x := g.Rng.Intn(10); {
+		case x < 5 && grow:
+			switch g.Rng.Intn(4) {
+			case 0:
+				o = c19Op{c19Unshift, fresh, 0}
+			case 1:
+				o = c19Op{c19Append, fresh, 0}
+			case 2:
+				o = c19Op{c19InsertAfter, ref(), fresh}
+			default:
+				if kind == 1 {
+					o = c19Op{c19InsertBefore, ref(), fresh}
+				} else {
+					o = c19Op{c19InsertAfter, ref(), fresh}
+				}
+			}
+			fresh++
+		case x < 5:
+			switch g.Rng.Intn(4) {
+			case 0:
+				o = c19Op{c19Shift, 0, 0}
+			case 1:
+				o = c19Op{c19Pop, 0, 0}
+			default:
+				o = c19Op{c19Delete, ref(), 0}
+			}
+		case x < 7:
+			o = c19Op{c19Replace, ref(), fresh}
+			fresh++
+		case x < 8:
+			o = c19Op{c19Find, ref(), 0}
+		default:
+			// an edit at the head, whatever the target
+			switch g.Rng.Intn(4) {
+			case 0:
+				o = c19Op{c19Unshift, fresh, 0}
+				fresh++
+			case 1:
+				o = c19Op{c19Shift, 0, 0}
+			case 2:
+				o = c19Op{c19Delete, s.xs[0], 0}
+			default:
+				if kind == 1 {
+					o = c19Op{c19InsertBefore, s.xs[0], fresh}
+				} else {
+					o = c19Op{c19InsertAfter, s.xs[0], fresh}
+				}
+				fresh++
+			}
+		}
+		if kind == 1 && g.Rng.Intn(40) == 0 {
+			o = c19Op{[]int{c19First, c19Last, c19Clear}[g.Rng.Intn(3)], 0, 0}
+		}
+		s.apply(o.code, o.a, o.b)
+		ops = append(ops, o)
+	}
+	return ops
+}
+
 func genC19(g *Gen) {
 	emit := func(stream string, kind int, ops []c19Op) {
 		nt, mn, mx := c19Classify(kind, 1, ops)
@@ -526,80 +699,12 @@ func genC19(g *Gen) {
 		if c%4 == 0 {
 			steps = 20 + g.Rng.Intn(60)
 		}
-		target := 1 + g.Rng.Intn(12) // the length the history hovers around
-		s := &c19Ref{xs: []int{1}, dlist: kind == 1}
-		fresh := 2
-		var ops []c19Op
-		for i := 0; i < steps; i++ {
-			ref := func() int {
-				if g.Rng.Intn(10) == 0 {
-					return c19Absent + g.Rng.Intn(3)*1000
-				}
-				return s.xs[g.Rng.Intn(len(s.xs))]
-			}
-			grow := len(s.xs) < target || g.Rng.Intn(4) == 0
-			var o c19Op
-			switch x := g.Rng.Intn(10); {
-			case x < 5 && grow:
-				switch g.Rng.Intn(4) {
-				case 0:
-					o = c19Op{c19Unshift, fresh, 0}
-				case 1:
-					o = c19Op{c19Append, fresh, 0}
-				case 2:
-					o = c19Op{c19InsertAfter, ref(), fresh}
-				default:
-					if kind == 1 {
-						o = c19Op{c19InsertBefore, ref(), fresh}
-					} else {
-						o = c19Op{c19InsertAfter, ref(), fresh}
-					}
-				}
-				fresh++
-			case x < 5:
-				switch g.Rng.Intn(4) {
-				case 0:
-					o = c19Op{c19Shift, 0, 0}
-				case 1:
-					o = c19Op{c19Pop, 0, 0}
-				default:
-					o = c19Op{c19Delete, ref(), 0}
-				}
-			case x < 7:
-				o = c19Op{c19Replace, ref(), fresh}
-				fresh++
-			case x < 8:
-				o = c19Op{c19Find, ref(), 0}
-			default:
-				// an edit at the head, whatever the target
-				switch g.Rng.Intn(4) {
-				case 0:
-					o = c19Op{c19Unshift, fresh, 0}
-					fresh++
-				case 1:
-					o = c19Op{c19Shift, 0, 0}
-				case 2:
-					o = c19Op{c19Delete, s.xs[0], 0}
-				default:
-					if kind == 1 {
-						o = c19Op{c19InsertBefore, s.xs[0], fresh}
-					} else {
-						o = c19Op{c19InsertAfter, s.xs[0], fresh}
-					}
-					fresh++
-				}
-			}
-			if kind == 1 && g.Rng.Intn(40) == 0 {
-				o = c19Op{[]int{c19First, c19Last, c19Clear}[g.Rng.Intn(3)], 0, 0}
-			}
-			s.apply(o.code, o.a, o.b)
-			ops = append(ops, o)
-		}
-		emit("random", kind, ops)
+		emit("random", kind, c19RandomHistory(g, kind, steps))
 	}
 
 	genC19Duplicates(g)
 	genC19Large(g)
+	genC19Instances(g)
 
 	// malformed: outside the property's quantifier but inside the model — values
 	// that repeat (Replace/insert of a value already present), absent handles
@@ -637,32 +742,8 @@ func genC19Duplicates(g *Gen) {
 	}
 	bound := g.Pick(3, 4)
 	for kind := 0; kind <= 1; kind++ {
-		var alpha []c19Op
-		for v := 1; v <= 2; v++ {
-			alpha = append(alpha, c19Op{c19Unshift, v, 0}, c19Op{c19Append, v, 0}, c19Op{c19Delete, v, 0})
-			for a := 1; a <= 2; a++ {
-				alpha = append(alpha, c19Op{c19InsertAfter, a, v}, c19Op{c19Replace, a, v})
-				if kind == 1 {
-					alpha = append(alpha, c19Op{c19InsertBefore, a, v})
-				}
-			}
-		}
-		alpha = append(alpha, c19Op{c19Shift, 0, 0}, c19Op{c19Pop, 0, 0})
-		var ops []c19Op
-		var rec func(left int)
-		rec = func(left int) {
-			if left == 0 {
-				emit("duplicates-exhaustive", kind, ops)
-				return
-			}
-			for _, o := range alpha {
-				ops = append(ops, o)
-				rec(left - 1)
-				ops = ops[:len(ops)-1]
-			}
-		}
 		for n := 1; n <= bound; n++ {
-			rec(n)
+			c19EnumerateDup(kind, n, func(ops []c19Op) { emit("duplicates-exhaustive", kind, ops) })
 		}
 	}
 	g.Exhaustive("duplicates-exhaustive")
@@ -670,49 +751,137 @@ func genC19Duplicates(g *Gen) {
 	nrand := g.Pick(200, 3000)
 	for c := 0; c < nrand; c++ {
 		kind := g.Rng.Intn(2)
-		steps := 30 + g.Rng.Intn(50)
-		pool := 2 + g.Rng.Intn(4) // values 1..pool
-		s := &c19Ref{xs: []int{1}, dlist: kind == 1}
-		var ops []c19Op
-		for i := 0; i < steps; i++ {
-			v := func() int { return 1 + g.Rng.Intn(pool) }
-			ref := func() int {
-				if g.Rng.Intn(8) == 0 {
-					return v()
-				}
-				return s.xs[g.Rng.Intn(len(s.xs))]
-			}
-			var o c19Op
-			switch x := g.Rng.Intn(12); {
-			case x < 1:
-				o = c19Op{c19Unshift, v(), 0}
-			case x < 2:
-				o = c19Op{c19Append, v(), 0}
-			case x < 4:
-				o = c19Op{c19InsertAfter, ref(), v()}
-			case x < 6:
-				if kind == 1 {
-					o = c19Op{c19InsertBefore, ref(), v()}
-				} else {
-					o = c19Op{c19InsertAfter, ref(), v()}
-				}
-			case x < 8:
-				o = c19Op{c19Replace, ref(), v()}
-			case x < 10:
-				o = c19Op{c19Delete, ref(), 0}
-			case x < 11:
-				o = c19Op{c19Shift, 0, 0}
-			default:
-				o = c19Op{c19Pop, 0, 0}
-			}
-			if len(s.xs) > 9 && g.Rng.Intn(2) == 0 {
-				o = c19Op{c19Delete, ref(), 0}
-			}
-			s.apply(o.code, o.a, o.b)
-			ops = append(ops, o)
-		}
-		emit("duplicates-random", kind, ops)
+		emit("duplicates-random", kind, c19RandomDupHistory(g, kind, 30+g.Rng.Intn(50)))
 	}
+}
+
+// c19EnumerateDup calls emit for every history of exactly n steps over the values {1, 2}
+func c19EnumerateDup(kind, n int, emit func(ops []c19Op)) {
+	var alpha []c19Op
+	for v := 1; v <= 2; v++ {
+		alpha = append(alpha, c19Op{c19Unshift, v, 0}, c19Op{c19Append, v, 0}, c19Op{c19Delete, v, 0})
+		for a := 1; a <= 2; a++ {
+			alpha = append(alpha, c19Op{c19InsertAfter, a, v}, c19Op{c19Replace, a, v})
+			if kind == 1 {
+				alpha = append(alpha, c19Op{c19InsertBefore, a, v})
+			}
+		}
+	}
+	alpha = append(alpha, c19Op{c19Shift, 0, 0}, c19Op{c19Pop, 0, 0})
+	var ops []c19Op
+	var rec func(left int)
+	rec = func(left int) {
+		if left == 0 {
+			emit(ops)
+			return
+		}
+		for _, o := range alpha {
+			ops = append(ops, o)
+			rec(left - 1)
+			ops = ops[:len(ops)-1]
+		}
+	}
+	rec(n)
+}
+
+// c19RandomDupHistory: values from a small pool, so that they repeat all the time
+func c19RandomDupHistory(g *Gen, kind, steps int) []c19Op {
+	pool := 2 + g.Rng.Intn(4) // values 1..pool
+	s := &c19Ref{xs: []int{1}, dlist: kind == 1}
+	var ops []c19Op
+	for i := 0; i < steps; i++ {
+		v := func() int { return 1 + g.Rng.Intn(pool) }
+		ref := func() int {
+			if g.Rng.Intn(8) == 0 {
+				return v()
+			}
+			return s.xs[g.Rng.Intn(len(s.xs))]
+		}
+		var o c19Op
+		switch x := g.Rng.Intn(12); {
+		case x < 1:
+			o = c19Op{c19Unshift, v(), 0}
+		case x < 2:
+			o = c19Op{c19Append, v(), 0}
+		case x < 4:
+			o = c19Op{c19InsertAfter, ref(), v()}
+		case x < 6:
+			if kind == 1 {
+				o = c19Op{c19InsertBefore, ref(), v()}
+			} else {
+				o = c19Op{c19InsertAfter, ref(), v()}
+			}
+		case x < 8:
+			o = c19Op{c19Replace, ref(), v()}
+		case x < 10:
+			o = c19Op{c19Delete, ref(), 0}
+		case x < 11:
+			o = c19Op{c19Shift, 0, 0}
+		default:
+			o = c19Op{c19Pop, 0, 0}
+		}
+		if len(s.xs) > 9 && g.Rng.Intn(2) == 0 {
+			o = c19Op{c19Delete, ref(), 0}
+		}
+		s.apply(o.code, o.a, o.b)
+		ops = append(ops, o)
+	}
+	return ops
+}
+
+// ---------- other element types ----------
+
+// genC19Instances: the lists are generic; Find / Replace / Delete compare values with ==.  The same
+// wire histories are run on SList[string] / DList[string] and on a comparable struct with a string
+// field (wire kind + 4 / + 8), through the codecs above: every value is built anew for every use, so
+// equal values never share storage.  The model and the wire are those of the int instance (the model
+// ignores the instance): the observation, decoded back to ints, must not depend on the element type.
+func genC19Instances(g *Gen) {
+	fullLen := g.Pick(3, 4)
+	dupLen := g.Pick(3, 4)
+	for inst := 1; inst <= 2; inst++ {
+		emit := func(stream string, kind int, quiet bool, ops []c19Op) {
+			nt, _, _ := c19Classify(kind, 1, ops)
+			g.Count("instances:" + c19InstNames[inst])
+			for _, o := range ops {
+				g.Count("instances:op:" + c19Names[o.code])
+			}
+			wk := kind + 4*inst
+			if quiet {
+				wk += 2
+			}
+			g.Case(stream, nt, c19Wire(wk, 1, ops))
+		}
+		for kind := 0; kind <= 1; kind++ {
+			// every history over the full alphabet (observers, absent values, Clear) up to fullLen
+			// steps, one more step over the mutators with present handles; distinct values
+			for n := 0; n <= fullLen; n++ {
+				c19Enumerate(kind, n, true, func(ops []c19Op) { emit("instances-exhaustive", kind, false, ops) })
+			}
+			c19Enumerate(kind, fullLen+1, false, func(ops []c19Op) { emit("instances-exhaustive", kind, false, ops) })
+			// every history over the values {1, 2}: equal values meet all the time
+			for n := 1; n <= dupLen; n++ {
+				c19EnumerateDup(kind, n, func(ops []c19Op) { emit("instances-exhaustive", kind, false, ops) })
+			}
+		}
+		nrand := g.Pick(60, 1000)
+		for c := 0; c < nrand; c++ {
+			kind := g.Rng.Intn(2)
+			if c%2 == 0 {
+				emit("instances-random", kind, false, c19RandomHistory(g, kind, 40+g.Rng.Intn(160)))
+			} else {
+				emit("instances-random", kind, false, c19RandomDupHistory(g, kind, 30+g.Rng.Intn(50)))
+			}
+		}
+		// a few long lists (checkpointed records)
+		for kind := 0; kind <= 1; kind++ {
+			for _, n := range []int{33, 65, g.Pick(129, 513)} {
+				emit("instances-random", kind, true, c19LargeCase(g, kind, n, 4, 5, 3, true))
+				emit("instances-random", kind, true, c19LargeCase(g, kind, n, g.Rng.Intn(4), g.Rng.Intn(5), 3, true))
+			}
+		}
+	}
+	g.Exhaustive("instances-exhaustive")
 }
 
 // ---------- long lists ----------
@@ -1023,10 +1192,14 @@ func describeC19(in []int64) string {
 		return "malformed"
 	}
 	var sb strings.Builder
-	if in[0] == 0 || in[0] == 2 {
-		fmt.Fprintf(&sb, "l := list.Init(%d)", in[1])
+	inst := ""
+	if k := in[0] / 4; in[0] >= 4 && in[0] <= 11 {
+		inst = "[" + c19InstNames[k] + "]"
+	}
+	if in[0]%2 == 0 {
+		fmt.Fprintf(&sb, "l := list.Init%s(%d)", inst, in[1])
 	} else {
-		fmt.Fprintf(&sb, "l := list.InitDList(%d)", in[1])
+		fmt.Fprintf(&sb, "l := list.InitDList%s(%d)", inst, in[1])
 	}
 	rest := in[2:]
 	one := func(i int) string {
@@ -1078,7 +1251,10 @@ func describeC19(in []int64) string {
 		}
 		i = j
 	}
-	if in[0] >= 2 {
+	if inst != "" {
+		sb.WriteString("   [every value v is built anew for each use: " + map[bool]string{true: `"" for 0, "#v" otherwise`, false: `{} for 0, {"#v/2", v%2} otherwise`}[in[0]/4 == 1] + "]")
+	}
+	if in[0]%4 >= 2 {
 		sb.WriteString("   [call results recorded; Each, First/Last observed at every LOOK]")
 	} else {
 		sb.WriteString("   [Each, First/Last observed after every step]")
@@ -1097,6 +1273,8 @@ func init() {
 			"long lists (grown to 33, 64, 65, 129, 130, 257, 1025 elements — thorough also 513, 2049, 4097, 10001 — by Append / Unshift / InsertAfter / InsertBefore, " +
 			"observed with every observer, edited in the middle and at both ends, shrunk back to one element by Shift / Pop / Delete; " +
 			"call results recorded at every step, Each and First/Last at checkpoint lengths 32k-1..32k+2 and others); " +
+			"other element types (SList/DList[string] and a comparable struct with a string field, every value built anew for each use so that equal values never share storage; " +
+			"the same wire, decoded back to ints: every full-alphabet history up to 3 steps (thorough 4), mutators one step further, every history over the values {1,2} up to 3 (4) steps, random ones and a few long lists); " +
 			"a malformed stream (repeating values, absent handles, methods the list type lacks). " +
 			"non-trivial = an operation that replaces the embedded head node (Unshift, Shift, Delete or InsertBefore at the head) " +
 			"is followed later by InsertAfter/InsertBefore/Delete through a Find handle on a present node",
